@@ -286,6 +286,8 @@ def greedy_run(case):
         calls.append((leaves.copy(), Y.copy(), Z.copy(), int(n_clusters), int(K_max), int(n_leaves), int(min_leaf), feats.copy(), split_dict(s)))
         return s
     model = Kauri(kernel="precomputed", random_state=seed, **params)
+    if params.get("max_depth") == 2:      # estimator-protocol route on part of the grid: same hyperparameters through set_params
+        model = Kauri().set_params(kernel="precomputed", random_state=seed, **params)
     if params.get("max_features") == 1 or kernel_kind == "indef":
         # history: the estimator went through the documented fallback path first (precomputed kernel forgotten: warning + linear kernel)
         import warnings
